@@ -109,6 +109,23 @@ fn main() {
         }
         std::process::exit(0);
     }
+    if args[1] == "script" {
+        // script <strategy> <line>... : one administrator session on a single node with database t
+        // selected; prints every reply and the messages the session received (a debugging aid)
+        use world::*;
+        let node = Node::new_single("script");
+        let mut s = Session::new();
+        s.exec(&node, &format!("auth {} {}", USER, PWD));
+        s.exec(&node, &format!("create-db t tok {}", args.get(2).map(|x| x.as_str()).unwrap_or("none")));
+        s.exec(&node, "use-db t tok");
+        for l in args.iter().skip(3) {
+            let o = s.exec(&node, l);
+            println!("`{}` -> {} {:?}", l, o.resp, o.msgs);
+        }
+        println!("final: {:?}", with_db(&node.dbs, "t", |d| dump_db(d)));
+        node.remove_dir();
+        std::process::exit(0);
+    }
     if args[1] == "ws-demo" {
         use world::*;
         let node = Node::new_single("ws-demo");
